@@ -156,7 +156,7 @@ def streams(ctx: lib.Ctx) -> None:
             if len(text) < cur["size"]:
                 cur.update(text=text, ops=[prof], exc=r["exc"], size=len(text), raw_key=r["key"],
                            target=target, snippets=job["snippets"])
-    known = {k["key"] for k in lib.load_known_findings() if k["property"] == "C02"}
+    known = {k["key"] for k in lib.load_known_findings() if k["kind"] == "finding" and k["property"] == "C02"}
     new = {k: v for k, v in found.items() if k not in known}
     c01.shrink_failures(new)
     for v in found.values():
